@@ -12,6 +12,9 @@ func init() {
 			asciiToIntRules(c, "C09")
 			acceptRules(c, "C09")
 			responseWriterRules(c, "C09")
+			parserHelperRules(c, "C09")
+			c17Selection(c)
+			c17UnsafeViews(c)
 		},
 	})
 }
